@@ -375,7 +375,7 @@ func checkC20Reported(c *Ctx, fns []*ssa.Function) {
 			}
 			n := calleeName(&call.Call)
 			switch n {
-			case "os.WriteFile", "io/ioutil.WriteFile", "(*os.File).Write", "(*os.File).WriteString", "(*os.File).Sync", "(*os.File).WriteAt", "google.golang.org/protobuf/proto.Marshal", "(*bufio.Writer).Flush", "(*bufio.Writer).Write":
+			case "os.Rename", "os.WriteFile", "io/ioutil.WriteFile", "(*os.File).Write", "(*os.File).WriteString", "(*os.File).Sync", "(*os.File).WriteAt", "google.golang.org/protobuf/proto.Marshal", "(*bufio.Writer).Flush", "(*bufio.Writer).Write":
 			default:
 				return
 			}
@@ -408,6 +408,32 @@ func checkC20Reported(c *Ctx, fns []*ssa.Function) {
 			var w []int
 			for e := range failEdges {
 				succ := f.Blocks[e.from].Succs[e.slot]
+				// path-sensitive first: which values can the error result take on the paths from the failing edge
+				// (phis resolved by the path taken)? an overwritten error shows up as a different value
+				for _, rv := range returnedAlong(f, f.Blocks[e.from], succ, eidx) {
+					okv := rv == ev || dependsOnNoPhi(rv, ev)
+					if cl, isCall := stripConv(rv).(*ssa.Call); isCall && !okv {
+						if cn := calleeName(&cl.Call); cn == "fmt.Errorf" || cn == "errors.New" {
+							okv = true
+						}
+					}
+					if mi, isMI := rv.(*ssa.MakeInterface); isMI && !okv {
+						_ = mi
+						okv = true // a constructed error value
+					}
+					if g, isLoad := rv.(*ssa.UnOp); isLoad && !okv {
+						if _, isGlobal := g.X.(*ssa.Global); isGlobal {
+							okv = true // a sentinel error
+						}
+					}
+					if _, isPhi := rv.(*ssa.Phi); isPhi {
+						okv = true // unresolved (defined before the failing edge): left to the path-insensitive test below
+					}
+					if !okv {
+						bad = true
+						w = []int{e.from, succ.Index}
+					}
+				}
 				hit, ww := reachAt(f, succ, func(in2 ssa.Instruction) bool {
 					ret, ok := in2.(*ssa.Return)
 					if !ok || eidx >= len(ret.Results) || in2.Block().Comment == "recover" {
@@ -436,4 +462,118 @@ func checkC20Reported(c *Ctx, fns []*ssa.Function) {
 			}
 		})
 	}
+}
+
+
+// returnedAlong enumerates the values result #idx can have at the returns reachable from the edge prev->start,
+// resolving every phi met on the way by the predecessor actually taken (acyclic paths, bounded).
+func returnedAlong(f *ssa.Function, prev, start *ssa.BasicBlock, idx int) []ssa.Value {
+	var out []ssa.Value
+	seenOut := map[ssa.Value]bool{}
+	steps := 0
+	var walk func(b, from *ssa.BasicBlock, choice map[*ssa.Phi]ssa.Value, onPath map[*ssa.BasicBlock]bool)
+	resolve := func(v ssa.Value, choice map[*ssa.Phi]ssa.Value) ssa.Value {
+		for i := 0; i < 12; i++ {
+			ph, ok := v.(*ssa.Phi)
+			if !ok {
+				return v
+			}
+			c, ok := choice[ph]
+			if !ok {
+				return v
+			}
+			v = c
+		}
+		return v
+	}
+	walk = func(b, from *ssa.BasicBlock, choice map[*ssa.Phi]ssa.Value, onPath map[*ssa.BasicBlock]bool) {
+		steps++
+		if steps > 4000 || onPath[b] {
+			return
+		}
+		onPath[b] = true
+		defer delete(onPath, b)
+		// phis of b, by the predecessor taken
+		var added []*ssa.Phi
+		pi := -1
+		for i, p := range b.Preds {
+			if p == from {
+				pi = i
+				break
+			}
+		}
+		for _, in := range b.Instrs {
+			ph, ok := in.(*ssa.Phi)
+			if !ok {
+				break
+			}
+			if pi >= 0 && pi < len(ph.Edges) {
+				if _, had := choice[ph]; !had {
+					choice[ph] = resolve(ph.Edges[pi], choice)
+					added = append(added, ph)
+				}
+			}
+		}
+		defer func() {
+			for _, ph := range added {
+				delete(choice, ph)
+			}
+		}()
+		if len(b.Instrs) > 0 {
+			if ret, ok := b.Instrs[len(b.Instrs)-1].(*ssa.Return); ok && b.Comment != "recover" && idx < len(ret.Results) {
+				v := resolve(returnedValue0(ret, idx, from), choice)
+				if !seenOut[v] {
+					seenOut[v] = true
+					out = append(out, v)
+				}
+				return
+			}
+		}
+		for _, s := range b.Succs {
+			walk(s, b, choice, onPath)
+		}
+	}
+	walk(start, prev, map[*ssa.Phi]ssa.Value{}, map[*ssa.BasicBlock]bool{})
+	return out
+}
+
+// dependsOnNoPhi: v is computed from ev without passing through a phi (a wrapped or converted form of it).
+func dependsOnNoPhi(v, ev ssa.Value) bool {
+	for i := 0; i < 6; i++ {
+		if v == ev {
+			return true
+		}
+		switch x := v.(type) {
+		case *ssa.ChangeInterface:
+			v = x.X
+		case *ssa.MakeInterface:
+			v = x.X
+		case *ssa.ChangeType:
+			v = x.X
+		case *ssa.Call:
+			for _, a := range x.Call.Args {
+				if a == ev {
+					return true
+				}
+				if sl, ok := a.(*ssa.Slice); ok {
+					// variadic ...interface{}: look at the stores into the backing array
+					if al, ok := sl.X.(*ssa.Alloc); ok && al.Referrers() != nil {
+						for _, ref := range *al.Referrers() {
+							if ia, ok := ref.(*ssa.IndexAddr); ok && ia.Referrers() != nil {
+								for _, r2 := range *ia.Referrers() {
+									if st, ok := r2.(*ssa.Store); ok && dependsOnNoPhi(st.Val, ev) {
+										return true
+									}
+								}
+							}
+						}
+					}
+				}
+			}
+			return false
+		default:
+			return false
+		}
+	}
+	return false
 }
